@@ -138,7 +138,15 @@ mod imp {
             h.logs.allowed = reference_allowed(SPECS[idx].1);
             h.logs.change_after_run = 1 + ((seed >> 8) % 5) as u32;
         });
-        s.set_logger(build(idx), |_core, r: &LogRecord<'_>| {
+        let nested = (seed >> 20) & 1 == 1;
+        s.set_logger(build(idx), move |core, r: &LogRecord<'_>| {
+            // A logger may use Core (it gets a &mut Core): some cases allocate a span of their own
+            // while an Open record is being delivered (e.g. a logger that lazily sets up a writer).
+            // Its own records are dropped by design (the logger is taken while it runs).
+            if nested && r.level == LogLevel::Open {
+                let id2 = core.log_span_open("harness-nested", 0, |_| {});
+                core.log_span_close(id2, format_args!(""), |_| {});
+            }
             let mut keys = Vec::new();
             (r.kvscan)(&mut V(&mut keys));
             let rec = Rec {
